@@ -11,10 +11,14 @@ def jobs(tier):
         dict(name='fixed-table-k3', harness=H, entry='main_c06',
              defines=dict(NN=4, NE=4, NS=1, FIXED_TABLE=1, OPTS_LO=1, KOPS=3),
              timeout=600, require_tags={'end': 1, 'null': 1, 'nonnull': 1}),
+        dict(name='kernel-search-sorted', harness='k_kernels.c', entry='main_kernel', defines=dict(KERNEL=6, NA=5), timeout=600,
+             require_tags={'end': 1, 'exact': 1, 'past-end': 1}),
     ]
     if tier == 'quick':
         return q
     return q + [
+        dict(name='kernel-search-sorted-8', harness='k_kernels.c', entry='main_kernel', defines=dict(KERNEL=6, NA=8), timeout=1200,
+             require_tags={'end': 1, 'exact': 1, 'past-end': 1}),
         dict(name='fixed-table-k4', harness=H, entry='main_c06',
              defines=dict(NN=4, NE=4, NS=1, FIXED_TABLE=1, OPTS_LO=1, KOPS=4),
              timeout=1500, require_tags={'end': 1, 'null': 1, 'nonnull': 1}),
@@ -29,7 +33,7 @@ def jobs(tier):
 
 
 BOUNDS = {
-    'quick': 'all 28 non-redundant sequences of 2 operations from {first,last,next,prev,seek(x),seek_index(i),clear} followed by copy, x '
+    'quick': 'search kernel: tsk_search_sorted (the position -> tree index step of seek from the null state) on strictly increasing arrays of 1-5 free binary64 values and a free probe; all 28 non-redundant sequences of 2 operations from {first,last,next,prev,seek(x),seek_index(i),clear} followed by copy, x '
              'a solver variable in [0,L), on every valid 3-node 2-edge tree sequence class with one site (edge '
              'coordinates symbolic), and all 343 sequences of 3 operations on one fixed 4-node 4-edge 5-tree sequence '
              '(internal sample, gap, empty last tree, site position and seek positions symbolic); sample lists on, all three nodes samples (so the oldest is an internal sample), one tracked sample; compared field by field with a fresh tree '
